@@ -477,7 +477,7 @@ pub fn run(mut chk: Check) -> ! {
         .into();
     chk.assumptions = vec!["canonical forms are computed by the harness's own canon(); a failure is attributed to a single form when that form alone reproduces the verdict".into()];
     chk.replay_files(dispatch);
-    let n = chk.scale(20_000, 1_000_000);
+    let n = chk.scale(400_000, 3_000_000);
     chk.campaign(CampaignCfg::new("forms", n), case_forms);
     chk.require_label("forms:accepted", "forms:case", 20.0);
     chk.require_label("forms:rejected", "forms:case", 3.0);
